@@ -53,6 +53,13 @@ def magnitude_menu():
         add("S10.pos.y", f"sign.position.y={v!r}", lambda s, v=v: find(s, "signs", 10)["position"].__setitem__(1, v))
         add("O31.traj1.v", f"trajectory[1].velocity={v!r}", lambda s, v=v: find(s, "obstacles", 31)["prediction"]["states"][1]["attrs"].__setitem__("velocity", v))
         add("PP.init.v", f"pp.initial_state.velocity={v!r}", lambda s, v=v: s["pps"][0]["initial_state"]["attrs"].__setitem__("velocity", v))
+    # small polygons far from the origin (UTM-like coordinates): neighbouring vertices agree to many leading digits
+    for bx, by in ((1e5, 2e5), (-654321.5, 5412345.25), (3e6, -1e5)):
+        tri = [[bx, by], [bx + 0.5, by], [bx + 0.25, by + 0.375]]
+        quad = [[bx, by], [bx + 0.25, by], [bx + 0.25, by + 0.5], [bx, by + 0.5]]
+        add("O34.shape.far", f"environment.polygon=small-triangle-at({bx!r},{by!r})", lambda s, tri=tri: find(s, "obstacles", 34).__setitem__("shape", ["poly", copy.deepcopy(tri)]))
+        add("O32.occ0.far", f"occupancy.polygon=small-quad-at({bx!r},{by!r})", lambda s, quad=quad: find(s, "obstacles", 32)["prediction"]["occ"][0].__setitem__("shape", ["poly", copy.deepcopy(quad)]))
+        add("PP.goal0.far", f"goal.polygon=small-triangle-at({bx!r},{by!r})", lambda s, tri=tri: s["pps"][0]["goal"]["states"][0]["attrs"].__setitem__("position", ["poly", copy.deepcopy(tri)]))
     for v in (0.1, 1e-05, 2, 0.04, 1e-07, 12.5):
         add("dt", f"dt={v!r}", lambda s, v=v: s.__setitem__("dt", v))
     for v in (1e-07, -1e-05, 48, 179.99999999, 1e-16):
